@@ -29,8 +29,32 @@ func skolemNeg(t *Term) *Term {
 		return And(cs...)
 	case "not":
 		return skolemPos(t.Args[0])
+	case "=":
+		if t.Args[0].S == SBool && (quantInside(t.Args[0]) || quantInside(t.Args[1])) {
+			a, b := t.Args[0], t.Args[1]
+			return Or(And(skolemPos(a), skolemNeg(b)), And(skolemNeg(a), skolemPos(b)))
+		}
 	}
 	return Not(t)
+}
+
+var quantMemo = map[*Term]bool{}
+
+func quantInside(t *Term) bool {
+	if v, ok := quantMemo[t]; ok {
+		return v
+	}
+	r := t.Op == "forall" || t.Op == "exists"
+	if !r {
+		for _, a := range t.Args {
+			if quantInside(a) {
+				r = true
+				break
+			}
+		}
+	}
+	quantMemo[t] = r
+	return r
 }
 
 func skolemPos(t *Term) *Term {
@@ -53,6 +77,11 @@ func skolemPos(t *Term) *Term {
 		return Or(skolemNeg(t.Args[0]), skolemPos(t.Args[1]))
 	case "not":
 		return skolemNeg(t.Args[0])
+	case "=":
+		if t.Args[0].S == SBool && (quantInside(t.Args[0]) || quantInside(t.Args[1])) {
+			a, b := t.Args[0], t.Args[1]
+			return And(Or(skolemNeg(a), skolemPos(b)), Or(skolemNeg(b), skolemPos(a)))
+		}
 	}
 	return t
 }
